@@ -8,3 +8,11 @@ check("C18", "model_checking", "explicit enumeration of all import graphs (<=4 p
       "Every directed import graph on <=3 (quick) / <=4 (thorough) packages with self-loops, every import-list order (all combinations for <=3 packages; identity + each single-list permutation for 4), every namespace-sharing pair, and the depth family (chains of 9..13 packages with one shortcut edge at every position in both list orders) is written to disk and loaded by the real packaging.LoadPackage + cmd.validatePackage; verdict, set and multiplicity of loaded namespaces and per-namespace content are compared with a reference graph algorithm and across orders. A stride of configurations also goes through the real CLI (yardl generate, model.json).",
       "Bounded: <=4 packages exhaustively, depth family up to 13. Limit semantics pinned to MaxImportRecursionDepth=10. git/https imports not covered (no network). Reference model is ours (lib in checks/c18.py).",
       "DESIGN.md section 3 C18", "goharness")
+
+ENGINES.append({"name": "rtengine", "path": "/verif/lib/rtengine.py", "serves_properties": ["C01"],
+  "kind_free_text": "bounded exhaustive shape x value enumeration; reference codec (lib/refcodec.py, written from docs/reference) vs generated C++/Python readers and writers driven in-process by generated translator drivers"})
+
+check("C01", "exploration", "bounded exhaustive enumeration of type shapes x value deviations, every execution run through the generated C++ reader/writers and compared with a reference codec",
+      "All type shapes with <=1 (quick) / <=2 (thorough) nested constructors over the leaf alphabet, each as step, stream item, record field and generic argument; for each every value with <=1 / <=2 deviations from the default over edge-value domains; each execution is reference-encoded (several block partitions), read by the generated C++ binary reader, re-written by the generated binary writer (CopyTo buffer sizes 1 and 3: single-item and batch paths) and by the NDJSON writer; outputs must decode under the reference decoder to exactly the written values, be the canonical encoding, and match the documented NDJSON mapping.",
+      "Reference codec is ours, written from docs/reference/*.md. xtensor and date.h are replaced by stand-ins (verif_ndarray.h via cpp.overrideArrayHeader; date/date.h). std::vector<bool> shapes excluded (C08). Buffer-boundary family: see C16/C03 (to be added here).",
+      "DESIGN.md section 3 C01", "rtengine")
